@@ -39,6 +39,7 @@ type SrcStats struct {
 	EOFReturns int       `json:"eof_returns"`
 	MaxInRead  int       `json:"max_in_read"`
 	ShortReads int       `json:"short_reads"`
+	EOFWithData int      `json:"eof_with_data"`
 	FirstErrAt int64     `json:"first_err_at"`
 	Log        []ReadRec `json:"log,omitempty"`
 }
@@ -81,7 +82,7 @@ func StepBudget(c *RunConfig) int {
 	for _, p := range c.Prelude {
 		pre += 2*p.NumByte + 2000
 		if p.Workflow != WSingle {
-			pre += 2000
+			pre += Info(p.Workflow).Samples*48 + 14*c.Workers + 400
 		}
 	}
 	if c.Workflow == WSingle {
@@ -147,7 +148,7 @@ func ExecutePlain(cfg *RunConfig, timeout time.Duration) *Outcome {
 	out.Matrix = rs.matrix
 	rs.mu.Unlock()
 	src.mu.Lock()
-	out.Src = SrcStats{src.Reads, src.Delivered, src.Requested, src.FaultFired, src.ErrReturns, src.EOFReturns, src.MaxInRead, src.ShortReads, src.FirstErrAt, src.Log}
+	out.Src = SrcStats{src.Reads, src.Delivered, src.Requested, src.FaultFired, src.ErrReturns, src.EOFReturns, src.MaxInRead, src.ShortReads, src.EOFWithData, src.FirstErrAt, src.Log}
 	src.mu.Unlock()
 	return out
 }
@@ -162,7 +163,10 @@ func Execute(t *testing.T, cfg *RunConfig) *Outcome {
 	out := &Outcome{Cfg: cfg, NamedItem: -1, Stream: st, CallsAtReturn: -1}
 	body := func() {
 		for _, pre := range cfg.Prelude {
-			pc := RunConfig{Workflow: pre.Workflow, NumByte: pre.NumByte, Stream: pre.Stream, Chunk: ChunkSpec{Kind: "full"}, Fault: FaultSpec{Kind: "none"}}
+			pc := RunConfig{Workflow: pre.Workflow, NumByte: pre.NumByte, Stream: pre.Stream, Chunk: ChunkSpec{Kind: "full"}, Fault: pre.Fault}
+			if pc.Fault.Kind == "" {
+				pc.Fault.Kind = "none"
+			}
 			pst := BuildStream(pre.Stream, pc.Required())
 			rs.setPrelude(true)
 			callWorkflow(pre.Workflow, NewSimSource(pst, &pc, true), pre.NumByte)
@@ -197,7 +201,7 @@ func Execute(t *testing.T, cfg *RunConfig) *Outcome {
 	out.Matrix = rs.matrix
 	rs.mu.Unlock()
 	src.mu.Lock()
-	out.Src = SrcStats{src.Reads, src.Delivered, src.Requested, src.FaultFired, src.ErrReturns, src.EOFReturns, src.MaxInRead, src.ShortReads, src.FirstErrAt, src.Log}
+	out.Src = SrcStats{src.Reads, src.Delivered, src.Requested, src.FaultFired, src.ErrReturns, src.EOFReturns, src.MaxInRead, src.ShortReads, src.EOFWithData, src.FirstErrAt, src.Log}
 	src.mu.Unlock()
 	return out
 }
